@@ -165,6 +165,22 @@ func checkDigest() {
 	}
 }
 
+// a run has a time budget: when it is used up the generator loops stop early and the evidence says so (a change that
+// makes the library slow must not make the check hang)
+var deadline time.Time
+var stoppedEarly = map[string]bool{}
+
+func timeUp(where string) bool {
+	if deadline.IsZero() || time.Now().Before(deadline) {
+		return false
+	}
+	if !stoppedEarly[where] {
+		stoppedEarly[where] = true
+		res.Notes = append(res.Notes, "time budget used up: loop "+where+" stopped early")
+	}
+	return true
+}
+
 var props = map[string]func(){}
 var replays = map[string]func(k *kase) *failure{}
 
@@ -177,6 +193,7 @@ func main() {
 	replay := flag.String("replay", "", "replay file")
 	execPar := flag.Int("exec-par", 0, "child mode: execute the calls given on stdin from N goroutines released together")
 	measureMode := flag.Bool("measure", false, "child mode: run the one call given on stdin and print what it allocated")
+	budget := flag.Int("budget", 0, "time budget in seconds for the generator loops (0 = 240 quick / 1500 thorough)")
 	execMode := flag.Bool("exec", false, "child mode: execute the calls given on stdin and print their results")
 	flag.Parse()
 	if *execMode {
@@ -204,6 +221,10 @@ func main() {
 		fmt.Fprintln(os.Stderr, "unknown property", *prop)
 		os.Exit(2)
 	}
+	if *budget == 0 {
+		*budget = scale(240, 1500)
+	}
+	deadline = time.Now().Add(time.Duration(*budget) * time.Second)
 	checkDigest()
 	useEcho := *prop != "C12" && *prop != "C13" && *prop != "C14"
 	echoOff = !useEcho
